@@ -458,13 +458,52 @@ func inlineSite(p *Program, pk *packages.Package, f *ast.File, call *ast.CallExp
 	mode, errName, thenText := "general", "", ""
 	var after string // statement(s) to emit after the inlined block, using the result temporaries
 	resList := strings.Join(resNames, ", ")
+	// the call as a direct argument of the statement's own call — outer(a, b, helper(x), c) — with only pure
+	// expressions evaluated before it: hoisted into a temporary, the statement keeps its shape
+	asDirectArg := func(top ast.Expr) bool {
+		outer, ok := ast.Unparen(top).(*ast.CallExpr)
+		if !ok || outer == call || len(resNames) != 1 {
+			return false
+		}
+		if !pureExpr(outer.Fun) {
+			return false
+		}
+		for _, a := range outer.Args {
+			if ast.Unparen(a) == ast.Expr(call) {
+				return true
+			}
+			if !pureExpr(a) {
+				return false
+			}
+		}
+		return false
+	}
+	spliced := func() string {
+		return string(src[tfile.Offset(stmt.Pos()):tfile.Offset(call.Pos())]) + resNames[0] + string(src[tfile.Offset(call.End()):tfile.Offset(stmt.End())])
+	}
 	switch s := stmt.(type) {
 	case *ast.ExprStmt:
+		if asDirectArg(s.X) {
+			after = spliced()
+			break
+		}
 		if !isWhole(s.X) {
 			return textEdit{}, "call nested in an expression statement"
 		}
 		after = ""
 	case *ast.AssignStmt:
+		if len(s.Rhs) == 1 && asDirectArg(s.Rhs[0]) {
+			allPure := true
+			for _, l := range s.Lhs {
+				if !pureExpr(l) {
+					allPure = false
+				}
+			}
+			if allPure {
+				after = spliced()
+				break
+			}
+		}
 		if len(s.Rhs) != 1 || !isWhole(s.Rhs[0]) {
 			return textEdit{}, "call is not the whole right-hand side"
 		}
@@ -481,6 +520,10 @@ func inlineSite(p *Program, pk *packages.Package, f *ast.File, call *ast.CallExp
 		}
 		after = strings.Join(lhs, ", ") + " " + s.Tok.String() + " " + resList
 	case *ast.ReturnStmt:
+		if len(s.Results) == 1 && asDirectArg(s.Results[0]) {
+			after = spliced()
+			break
+		}
 		if len(s.Results) != 1 || !isWhole(s.Results[0]) {
 			return textEdit{}, "call is not the whole returned expression"
 		}
